@@ -17,10 +17,14 @@ func (q queryServer) ListVestingQueue(ctx context.Context, req *types.QueryAllVe
 		return nil, status.Error(codes.InvalidArgument, "invalid request")
 	}
 
-	vestingQueues, pageRes, err := query.CollectionPaginate(
+	// An auction id left at its zero value does not filter.
+	vestingQueues, pageRes, err := query.CollectionFilteredPaginate(
 		ctx,
 		q.k.VestingQueue,
 		req.Pagination,
+		func(_ collections.Pair[uint64, time.Time], value types.VestingQueue) (bool, error) {
+			return req.AuctionId == 0 || value.AuctionId == req.AuctionId, nil
+		},
 		func(_ collections.Pair[uint64, time.Time], value types.VestingQueue) (types.VestingQueue, error) {
 			return value, nil
 		},
